@@ -17,7 +17,22 @@ from harness import core, server_tools as st
 PROP = 'C11'
 PROOFS = ['theories/Server/Model.v']
 HEADER = 'From PW Require Import Server.Model Server.Run.\nOpen Scope Z_scope.\n'
-REQ = {'worker': 'RWorker', 'pworker': 'RWorker', 'ctx_create': '(RCtxCreate 991)', 'ctx_delete': '(RCtxDelete 991)', 'worker_ctx': '(RWorkerCtx 991)'}
+REQ = {'worker_in_live_ctx': '(RWorkerCtx 992)', 'worker': 'RWorker', 'pworker': 'RWorker', 'ctx_create': '(RCtxCreate 991)', 'ctx_delete': '(RCtxDelete 991)', 'worker_ctx': '(RWorkerCtx 991)'}
+
+
+def bounded(fn, secs):
+    """('ok', value) | ('raised', repr) | ('hang',): the check itself must never block on a broken implementation"""
+    import threading
+    out = {}
+
+    def run():
+        try:
+            out['r'] = ('ok', fn())
+        except BaseException as e:   # noqa
+            out['r'] = ('raised', repr(e))
+    t = threading.Thread(target=run, daemon=True)
+    t.start(); t.join(secs)
+    return out.get('r', ('hang',))
 
 
 def main(tier, seed, replay=None):
@@ -42,6 +57,16 @@ def main(tier, seed, replay=None):
         healthy = PersistentRemoteWorker(st.sq3, host=addr)
         healthy.enqueue(2)
         assert healthy.next_result(timeout=10) == 8
+        # a healthy client's context with a worker in it: faulty worker-in-context requests go through the context's helper process
+        from pyworkers.remote_context import RemoteContext
+        hctx = RemoteContext(992, target=st.sq3, host=addr, kwargs={'exp': 3})
+        sessions.append('mkSession (RCtxCreate 992) PComplete'); replies.append('RBool true')
+        hctx_worker = PersistentRemoteWorker(None, host=addr, context=992)
+        sessions.append('mkSession (RWorkerCtx 992) PComplete'); replies.append('Handshake')
+        hctx_worker.enqueue(2)
+        assert hctx_worker.next_result(timeout=10) == 8
+        streams['worker_in_live_ctx'] = st.record_ctx_worker(addr, 992)
+        sessions.append('mkSession (RWorkerCtx 992) PComplete'); replies.append('Handshake')
         nfault = 0
 
         def fault(kind, data, how, end, label):
@@ -128,6 +153,44 @@ def main(tier, seed, replay=None):
             if not ok:
                 res.violation(dict(request='worker', cut='never opens the control connection'), 'the server stays blocked for more than 25 s by a client that never opens the control connection')
                 go = False
+        # the same for a worker request inside the live context: it is the context's helper which waits (and must survive)
+        if go:
+            t0 = time.time()
+            st.raw_session(addr, b''.join(streams['worker_in_live_ctx']), read_reply=True)
+            res.count('how:PNoCtrl'); res.case(('worker_in_live_ctx', 'no-ctrl'), nontrivial=True)
+            sessions.append('mkSession (RWorkerCtx 992) PNoCtrl'); replies.append('Closed')
+            okc, last = False, None
+
+            def fresh_ctx_worker():
+                w2 = PersistentRemoteWorker(None, host=addr, context=992)
+                w2.enqueue(3)
+                v = w2.next_result(block=True)
+                w2.wait(5)
+                return v
+            while time.time() - t0 < 30 and not okc:
+                r = bounded(fresh_ctx_worker, 15)
+                if r == ('ok', 27):
+                    okc = True
+                    sessions.append('mkSession (RWorkerCtx 992) PComplete'); replies.append('Handshake')
+                else:
+                    last = r
+                    if r[0] == 'hang':
+                        break
+                    time.sleep(0.5)
+            if not okc:
+                res.violation(dict(request='worker in a live context', cut='never opens the control connection'),
+                              f'after a client of context 992 never opened its control connection no further worker can be started in that context ({last})')
+        # the healthy client's worker inside the context is undisturbed by all the faulty worker-in-context requests
+        def ask_ctx_worker():
+            hctx_worker.enqueue(3)
+            return hctx_worker.next_result(block=True)
+        r = bounded(ask_ctx_worker, 10)
+        alive_ = bounded(hctx_worker.is_alive, 5)
+        if r != ('ok', 27) or alive_ != ('ok', True):
+            res.violation(dict(healthy_client='persistent worker inside context 992 created before the faults'),
+                          f'the healthy client\'s worker inside the context was disturbed by other clients\' faulty requests (answer: {r}, is_alive: {alive_})')
+        if bounded(lambda: (hctx_worker.wait(5), hctx.close()), 20)[0] == 'ok':
+            sessions.append('mkSession (RCtxDelete 992) PComplete'); replies.append('RBool true')
         # the healthy client is undisturbed
         try:
             healthy.enqueue(3)
